@@ -20,8 +20,9 @@ use yash_env::system::r#virtual::{
     SIGCHLD, SIGINT, SIGKILL, SIGQUIT, SIGSTOP, SIGTERM, SIGTSTP, SIGTTIN, SIGTTOU, SIGUSR1,
     VirtualSystem,
 };
-use yash_env::system::{Concurrent, Disposition, Sigset as _};
-use yash_env::trap::{Action, Condition, Origin, SetActionError, TrapState};
+use yash_env::system::{Concurrent, Disposition, Errno, Signals, Sigset as _};
+use std::cell::Cell;
+use yash_env::trap::{Action, Condition, Origin, SetActionError, SignalSystem, TrapState};
 use yvcommon::util;
 
 pub const ALL_CONDS: [&str; 11] = [
@@ -186,9 +187,15 @@ impl World {
 
     /// Applies one operation of the alphabet; returns the result record.
     pub fn apply(&mut self, op: &Value) -> Value {
+        let system = Rc::clone(&self.env.system);
+        self.apply_with(&system, op)
+    }
+
+    /// Same, with the trap set talking to `system` (the process's own system or
+    /// a wrapper of it that injects a signal between two system calls).
+    pub fn apply_with<S: SignalSystem>(&mut self, system: &S, op: &Value) -> Value {
         let name = op["op"].as_str().unwrap();
         let c = op["c"].as_str().unwrap_or("");
-        let system = Rc::clone(&self.env.system);
         macro_rules! done {
             ($fut:expr) => {
                 match $fut.now_or_never() {
@@ -207,7 +214,7 @@ impl World {
                 };
                 let loc = Location::dummy(op["loc"].as_str().unwrap_or("L"));
                 let ov = op["ov"].as_bool().unwrap_or(false);
-                let r = done!(self.env.traps.set_action(&system, cond_of(c), action, loc, ov));
+                let r = done!(self.env.traps.set_action(system, cond_of(c), action, loc, ov));
                 match r {
                     Ok(()) => res("ok"),
                     Err(SetActionError::InitiallyIgnored) => res("ignored"),
@@ -216,30 +223,30 @@ impl World {
                     Err(SetActionError::SystemError(_)) => res("errno"),
                 }
             }
-            "peek" => match self.env.traps.peek_state(&system, cond_of(c)) {
+            "peek" => match self.env.traps.peek_state(system, cond_of(c)) {
                 Ok(s) => res_state("ok", "", s),
                 Err(_) => res("errno"),
             },
             "enable_chld" => errno(done!(
-                self.env.traps.enable_internal_disposition_for_sigchld(&system)
+                self.env.traps.enable_internal_disposition_for_sigchld(system)
             )),
             "enable_term" => errno(done!(
-                self.env.traps.enable_internal_dispositions_for_terminators(&system)
+                self.env.traps.enable_internal_dispositions_for_terminators(system)
             )),
             "enable_stop" => errno(done!(
-                self.env.traps.enable_internal_dispositions_for_stoppers(&system)
+                self.env.traps.enable_internal_dispositions_for_stoppers(system)
             )),
             "disable_term" => errno(done!(
-                self.env.traps.disable_internal_dispositions_for_terminators(&system)
+                self.env.traps.disable_internal_dispositions_for_terminators(system)
             )),
             "disable_stop" => errno(done!(
-                self.env.traps.disable_internal_dispositions_for_stoppers(&system)
+                self.env.traps.disable_internal_dispositions_for_stoppers(system)
             )),
-            "disable_all" => errno(done!(self.env.traps.disable_internal_dispositions(&system))),
+            "disable_all" => errno(done!(self.env.traps.disable_internal_dispositions(system))),
             "enter_subshell" => {
                 let ii = op["ii"].as_bool().unwrap_or(false);
                 let ks = op["ks"].as_bool().unwrap_or(false);
-                done!(self.env.traps.enter_subshell(&system, ii, ks));
+                done!(self.env.traps.enter_subshell(system, ii, ks));
                 res("ok")
             }
             "deliver" => {
@@ -572,6 +579,13 @@ pub fn redo(args: &[String]) -> i32 {
             None => ALL_CONDS.iter().map(|c| c.to_string()).collect(),
         };
         let init = init_of(&v["init"], &conds);
+        if v.get("mid").is_some_and(|m| !m.is_null()) {
+            let hist: Vec<Value> = v["h"].as_array().cloned().unwrap_or_default().iter().map(complete).collect();
+            let k = v["mid"]["k"].as_u64().unwrap() as usize;
+            let rec = mid_record(&init, &hist, &conds, &complete(&v["op"]), v["mid"]["sig"].as_str().unwrap(), k, k);
+            writeln!(out, "{rec}").unwrap();
+            continue;
+        }
         let mut w = World::new(&init);
         writeln!(out, "{}", json!({"ev": "reset", "init": init, "st": w.project(&conds)})).unwrap();
         let mut ops: Vec<Value> = v["h"].as_array().cloned().unwrap_or_default();
@@ -587,5 +601,149 @@ pub fn redo(args: &[String]) -> i32 {
         }
     }
     out.flush().unwrap();
+    0
+}
+
+// ---------------------------------------------------------------------------
+// a signal arriving in the middle of an operation
+
+/// The process's system, counting the `set_disposition` calls of the trap set
+/// and raising a signal at the process just before the `at.0`-th of them.
+pub struct Inject {
+    inner: Sys,
+    vs: VirtualSystem,
+    count: Cell<usize>,
+    at: Option<(usize, Number)>,
+}
+
+macro_rules! delegate_consts {
+    ($($name:ident : $t:ty),* $(,)?) => {
+        $(const $name: $t = <VirtualSystem as Signals>::$name;)*
+    };
+}
+
+impl Signals for Inject {
+    delegate_consts!(
+        SIGABRT: Number, SIGALRM: Number, SIGBUS: Number, SIGCHLD: Number, SIGCLD: Option<Number>,
+        SIGCONT: Number, SIGEMT: Option<Number>, SIGFPE: Number, SIGHUP: Number, SIGILL: Number,
+        SIGINFO: Option<Number>, SIGINT: Number, SIGIO: Option<Number>, SIGIOT: Number, SIGKILL: Number,
+        SIGLOST: Option<Number>, SIGPIPE: Number, SIGPOLL: Option<Number>, SIGPROF: Number,
+        SIGPWR: Option<Number>, SIGQUIT: Number, SIGSEGV: Number, SIGSTKFLT: Option<Number>,
+        SIGSTOP: Number, SIGSYS: Number, SIGTERM: Number, SIGTHR: Option<Number>, SIGTRAP: Number,
+        SIGTSTP: Number, SIGTTIN: Number, SIGTTOU: Number, SIGURG: Number, SIGUSR1: Number,
+        SIGUSR2: Number, SIGVTALRM: Number, SIGWINCH: Number, SIGXCPU: Number, SIGXFSZ: Number,
+    );
+    fn sigrt_range(&self) -> Option<std::ops::RangeInclusive<Number>> {
+        self.vs.sigrt_range()
+    }
+}
+
+impl SignalSystem for Inject {
+    fn get_disposition(&self, signal: Number) -> Result<Disposition, Errno> {
+        self.inner.get_disposition(signal)
+    }
+    fn set_disposition(
+        &self,
+        signal: Number,
+        disposition: Disposition,
+    ) -> impl Future<Output = Result<Disposition, Errno>> + use<> {
+        let n = self.count.get() + 1;
+        self.count.set(n);
+        if let Some((k, s)) = self.at {
+            if k == n {
+                let _ = self.vs.current_process_mut().raise_signal(s);
+            }
+        }
+        self.inner.set_disposition(signal, disposition)
+    }
+}
+
+fn inject(w: &World, at: Option<(usize, Number)>) -> Inject {
+    Inject { inner: Rc::clone(&w.env.system), vs: w.vs.clone(), count: Cell::new(0), at }
+}
+
+/// One operation with a signal raised just before its `k`-th system call;
+/// returns (result, post state, number of system calls made).
+fn mid_step(w: &mut World, op: &Value, conds: &[String], at: Option<(usize, Number)>) -> (Value, Value, usize) {
+    let sys = inject(w, at);
+    match util::catch(|| w.apply_with(&sys, op)) {
+        Ok(r) => (r, w.project(conds), sys.count.get()),
+        Err(msg) => {
+            let mut r = res("panic");
+            r["cmd"] = json!(msg);
+            (r, json!({"proc": "P"}), sys.count.get())
+        }
+    }
+}
+
+/// The three runs of one mid-operation case, from the state reached by `hist`.
+fn mid_record(init: &Value, hist: &[Value], conds: &[String], op: &Value, s: &str, k: usize, n: usize) -> Value {
+    let num = signal_of(s).unwrap();
+    let deliver = mkop("deliver", s, "", false, false, false);
+    // a: the signal arrives before the operation
+    let mut wa = rebuild(init, hist, conds).unwrap();
+    let (_, alive) = step(&mut wa, &deliver, conds, "try");
+    let a = if alive { step(&mut wa, op, conds, "try").0["post"].clone() } else { wa.project(conds) };
+    // b: after it
+    let mut wb = rebuild(init, hist, conds).unwrap();
+    let (_, alive) = step(&mut wb, op, conds, "try");
+    let b = if alive { step(&mut wb, &deliver, conds, "try").0["post"].clone() } else { wb.project(conds) };
+    // m: just before the k-th system call of the operation
+    let mut wm = rebuild(init, hist, conds).unwrap();
+    let (r, m, _) = mid_step(&mut wm, op, conds, Some((k, num)));
+    json!({"ev": "mid", "op": op, "sig": s, "k": k, "n": n, "res": r, "a": a, "b": b, "m": m,
+           "init": init, "h": hist})
+}
+
+/// `midop --conds A,B --in states.ndjson --out trace.ndjson`: for every state,
+/// every operation that makes at least two system calls, every signal s and
+/// every k >= 2: the operation with s arriving just before its k-th system
+/// call (m), next to s arriving before the operation (a) and after it (b).
+pub fn midop(args: &[String]) -> i32 {
+    util::quiet_panics();
+    let conds = conds_arg(args);
+    let ops = alphabet(&conds);
+    let sigs: Vec<String> = conds.iter().filter(|c| *c != "EXIT").cloned().collect();
+    let mut out = util::open_out(args);
+    let (mut states, mut written, mut cases) = (0u64, 0u64, 0u64);
+    let mut seen: std::collections::HashSet<String> = std::collections::HashSet::new();
+    for line in util::open_in(args).lines() {
+        let line = line.unwrap();
+        if line.trim().is_empty() {
+            continue;
+        }
+        let v: Value = serde_json::from_str(&line).expect("json");
+        let init = init_of(&v["init"], &conds);
+        let hist: Vec<Value> = v["h"].as_array().unwrap().iter().map(complete).collect();
+        if rebuild(&init, &hist, &conds).is_none() {
+            continue;
+        }
+        states += 1;
+        for op in ops.iter() {
+            if matches!(op["op"].as_str().unwrap(), "deliver" | "poll" | "take" | "take_if" | "catch" | "peek") {
+                continue;
+            }
+            let mut w = rebuild(&init, &hist, &conds).unwrap();
+            let (_, _, n) = mid_step(&mut w, op, &conds, None);
+            if n < 2 {
+                continue;
+            }
+            for s in &sigs {
+                for k in 2..=n {
+                    let rec = mid_record(&init, &hist, &conds, op, s, k, n);
+                    // the verdict on a mid record depends on (op, sig, k, a, b, m) only:
+                    // identical observations from different histories are written once
+                    let key = format!("{}|{}|{}|{}|{}|{}", rec["op"], s, k, rec["a"], rec["b"], rec["m"]);
+                    cases += 1;
+                    if seen.insert(key) {
+                        writeln!(out, "{rec}").unwrap();
+                        written += 1;
+                    }
+                }
+            }
+        }
+    }
+    out.flush().unwrap();
+    eprintln!("{}", json!({"states": states, "records": written, "cases": cases}));
     0
 }
